@@ -53,6 +53,13 @@ SKIP_PRED = {  # skip_serializing_if path -> skind
 }
 DEFAULT_FN = {  # default = "path" -> JSON value the function returns
     "ruma_common::serde::default_true": True, "default_true": True,
+    "default_room_version_id": "1",
+}
+# the bodies of the default functions named above, as they must appear in the source
+DEFAULT_FN_BODY = {
+    "default_room_version_id": ("crates/ruma-events/src/room/create.rs",
+                                "fn default_room_version_id() -> RoomVersionId {\n    RoomVersionId::V1\n}"),
+    "default_true": ("crates/ruma-common/src/serde.rs", "pub fn default_true() -> bool {\n    true\n}"),
 }
 
 
@@ -82,6 +89,9 @@ def identifier_classes():
 
 def build():
     feats, _linked = c19.enabled_features()
+    for fn, (path, body) in DEFAULT_FN_BODY.items():
+        if body not in open(os.path.join(c19.REPO, path)).read():
+            raise TranslateError("%s: the body of %s is not the expected one" % (path, fn))
     idcls, common_items = identifier_classes()
     ev_items = S.crate_items("ruma-events")
     by_name = {}
@@ -97,6 +107,12 @@ def build():
         if len(its) != 1 or its[0].kind != "tuple" or len(its[0].fields) != 1 or S.ty_text(its[0].fields[0].ty) != "UInt":
             raise TranslateError("expected %s to be a newtype over UInt" % n)
 
+    sig_src = open(os.path.join(c19.REPO, "crates/ruma-common/src/identifiers/signatures.rs")).read()
+    for needle in ("pub struct Signatures<E: Ord, K: KeyName + ?Sized>(BTreeMap<E, EntitySignatures<K>>);",
+                   "pub type ServerSignatures = Signatures<OwnedServerName, ServerSigningKeyVersion>;",
+                   "pub type EntitySignatures<K> = BTreeMap<OwnedSigningKeyId<K>, String>;"):
+        if needle not in sig_src:
+            raise TranslateError("identifiers/signatures.rs: expected `%s`" % needle)
     memo = {}
     stack = []
 
@@ -161,6 +177,10 @@ def build():
             return ("objany",)
         if name == "RoomVersionId" and not args:
             return ("id", 9)
+        if name == "ServerSignatures" and not args:
+            # ruma-common identifiers/signatures.rs: transparent newtypes over
+            # BTreeMap<OwnedServerName, BTreeMap<OwnedServerSigningKeyId, String>> (checked below)
+            return ("map", 5, ("map", 10, ("str",)))
         if name in idcls and not args:
             c = idcls[name]
             if c < 0:
